@@ -74,6 +74,9 @@ def deploy(conf):
         osprofiler_middleware = None
 
     application = handler.PlacementHandler(config=conf)
+    # Errors raised by the handler reach the microversion middleware as
+    # responses, so that it adds the same headers to them as to any other.
+    application = handler.RaisedErrorsAsResponses(application)
 
     # If PROFILER_OUTPUT is set, generate per request profile reports
     # to the directory named therein.
